@@ -69,6 +69,7 @@ def build_all(cfgs, profile="release"):
 
 
 def regen_catalogue():
+    subprocess.run([sys.executable, os.path.join(ROOT, "tools", "harvest_docs.py")], check=True, stdout=subprocess.DEVNULL)
     subprocess.run([sys.executable, os.path.join(ROOT, "tools", "catalogue.py")], check=True, stdout=subprocess.DEVNULL)
     subprocess.run([sys.executable, os.path.join(ROOT, "tools", "gen_formats.py")], check=True, stdout=subprocess.DEVNULL)
 
